@@ -262,9 +262,16 @@ def run(ctx):
     goldens = par.pmap(_golden, gitems)
     items = []
     info = {}
+    viols0 = []
     for (task, variant, _, _), g in zip(gitems, goldens):
         if "error" in g:
-            raise RuntimeError(f"{task}/{variant}: {g['error']}")
+            # the task does not even complete without any fault
+            viols0.append(violation(
+                f"dclab.cli.task_{task}:{task}", "task-fails-without-fault",
+                {"task": task, "variant": variant, "preexist": False,
+                 "k": 0, "kind": "none", "second": None},
+                f"{task} variant {variant}: {g['error']}", {"task": task}))
+            continue
         info[f"{task}/{variant}"] = g["K"]
         for k in range(1, g["K"] + 1):
             for kind in ("error", "kill"):
@@ -280,7 +287,7 @@ def run(ctx):
                 items.append((task, variant, True, k, "error", None, g,
                               scratch))
     res = par.pmap(_fault_case, items)
-    viols = []
+    viols = list(viols0)
     statuses = {}
     seams = set()
     temp_left = 0
@@ -316,7 +323,9 @@ def replay(case, ctx):
     g = _golden((case["task"], case["variant"], case["preexist"],
                  ctx.scratch))
     if "error" in g:
-        raise RuntimeError(g["error"])
+        return [violation(f"dclab.cli.task_{case['task']}:{case['task']}",
+                          "task-fails-without-fault", case, g["error"],
+                          {"task": case["task"]})]
     _, _, _, vs = _fault_case((case["task"], case["variant"],
                                case["preexist"], case["k"], case["kind"],
                                case["second"], g, ctx.scratch))
